@@ -274,6 +274,9 @@ func mkFixedConsumer(rng *rand.Rand, i int) *mkConsSpec {
 	case 7:
 		s.consumerFirst = true
 		p.readM, p.readE = 1, 0
+	case 10: // both drain expectations violated at one Close: two deviations, two reports
+		p.drainM, p.drainE = true, true
+		p.nm, p.ne, p.readM, p.readE = 3, 2, 1, 0
 	case 8, 9: // eight goroutines yield on one partition consumer
 		s.buf = []int{0, 256}[i-8]
 		p.preYield, p.yielders = false, 8
